@@ -33,7 +33,6 @@ func (P *extPoint) getXY() (x, y *mod.Int) {
 }
 
 func (P *extPoint) String() string {
-	P.normalize()
 	buf, _ := P.MarshalBinary()
 	return hex.EncodeToString(buf)
 }
@@ -43,8 +42,10 @@ func (P *extPoint) MarshalSize() int {
 }
 
 func (P *extPoint) MarshalBinary() ([]byte, error) {
-	P.normalize()
-	return P.c.encodePoint(&P.X, &P.Y), nil
+	// normalize a copy: read-only methods must not write the (possibly shared) receiver
+	q := P.Clone().(*extPoint) //nolint:errcheck // Clone returns the same type
+	q.normalize()
+	return P.c.encodePoint(&q.X, &q.Y), nil
 }
 
 func (P *extPoint) UnmarshalBinary(b []byte) error {
@@ -143,8 +144,9 @@ func (P *extPoint) Pick(rand cipher.Stream) kyber.Point {
 
 // Extract embedded data from a point group element
 func (P *extPoint) Data() ([]byte, error) {
-	P.normalize()
-	return P.c.data(&P.X, &P.Y)
+	q := P.Clone().(*extPoint) //nolint:errcheck // Clone returns the same type
+	q.normalize()
+	return P.c.data(&q.X, &q.Y)
 }
 
 // Add two points using optimized extended coordinate addition formulas.
